@@ -151,6 +151,12 @@ def _strategy(draw):
         build += ["[ rw_restriction ]", f"{resname} 1 {nres + 1} " + " ".join(map(repr, normal)) + f" {angle!r}"]
         restraints.append({"kind": "cone", "mol": name, "lo": lo, "hi": hi, "resname": resname, "r0": 1, "r1": nres + 1,
                            "normal": normal, "angle": angle})
+        if draw(st.booleans()):
+            # the same molecules also get a (wide) geometric restraint: both kinds hold together
+            size = round(0.45 * edge, 2)
+            build += ["[ sphere ]", f"{resname} 1 {nres + 1} in " + " ".join(repr(float(edge / 2.0)) for _ in range(3)) + f" {size!r}"]
+            restraints.append({"kind": "sphere", "mol": name, "lo": lo, "hi": hi, "resname": resname, "r0": 1, "r1": nres + 1,
+                               "inout": "in", "centre": [edge / 2.0] * 3, "params": [size]})
     elif kind == "dist":
         build += ["[ molecule ]", f"{name} {lo} {hi}"]
         a = draw(st.integers(0, nres - 3))
